@@ -309,6 +309,10 @@ def check_fault(case, ctx: Ctx):
         why = "no answer within the guard" if res[0] == "hang" else "%s: %s" % (type(res[1]).__name__, str(res[1])[:600])
         raise HarnessError("generated valid twin does not load: %s | platform=%s document:\n%s" % (why, platform, dump(doc)))
     mdoc, what = D.mutate(doc, W, X, fault)
+    if dump(mdoc) == dump(doc):
+        # (only on replay of a case pinned before the list of fault positions changed) no fault was applied
+        ctx.rec.label("fault-not-applicable")
+        return
     kind, detail = what["kind"], what["detail"]
     pinned = {"W": W, "X": X, "fault": dict(fault, at=[kind, what["pos"]])}     # replay independent of enumeration order
     context = "fault=%s (%s) platform=%s mutant document:\n%s" % (kind, what["text"], platform, dump(mdoc))
